@@ -55,3 +55,46 @@ func VH_C17_friendly_corrupt(p int, wc int) {
 	zzvrt.Cover("reached", true)
 	zzvrt.ObserveBool("err", err != nil)
 }
+
+// Raw text form "<workchain>:<64 hex>" and its JSON form: every workchain of at most 5 decimal digits
+// of both signs (symbolic), account part fixed except one symbolic byte; ToRaw -> AccountIDFromRaw /
+// ParseAccountID and MarshalJSON -> UnmarshalJSON give back the same account.
+func VH_C17_raw_roundtrip() {
+	wc := zzvrt.NondetI32("wc")
+	zzvrt.Assume(wc > -100000 && wc < 100000)
+	id := vAccount(wc)
+	id.Address[0] = zzvrt.NondetByte("first")
+	s := id.ToRaw()
+	got, err := AccountIDFromRaw(s)
+	zzvrt.Assert("raw-parses", err == nil)
+	zzvrt.Assert("raw-same", got.Workchain == wc && got.Address == id.Address)
+	got2, err := ParseAccountID(s)
+	zzvrt.Assert("parse-account-id", err == nil && got2.Workchain == wc && got2.Address == id.Address)
+	b, err := id.MarshalJSON()
+	zzvrt.Assert("json-ok", err == nil)
+	var y AccountID
+	err = y.UnmarshalJSON(b)
+	zzvrt.Assert("json-parses", err == nil)
+	zzvrt.Assert("json-same", y.Workchain == wc && y.Address == id.Address)
+	zzvrt.Cover("negative", wc < 0)
+	zzvrt.ObserveInt("wc", int(got.Workchain))
+}
+
+// Short raw forms are zero-filled on the left: "<wc>:<hex of k digits>" (k < 64) denotes the address
+// whose hex form is that text padded with leading zeros.
+func VH_C17_raw_zero_fill(k int) {
+	id := vAccount(0)
+	id.Address[31] = zzvrt.NondetByte("last")
+	for i := 0; i < 32-(k+1)/2; i++ {
+		id.Address[i] = 0
+	}
+	if k%2 == 1 {
+		id.Address[32-(k+1)/2] &= 0x0f
+	}
+	full := id.ToRaw()
+	short := "0:" + full[len(full)-k:]
+	got, err := AccountIDFromRaw(short)
+	zzvrt.Assert("short-form-parses", err == nil)
+	zzvrt.Assert("short-form-zero-filled", got.Workchain == 0 && got.Address == id.Address)
+	zzvrt.ObserveBool("err", err != nil)
+}
